@@ -6,7 +6,8 @@ from vf.core import Suite, coq_hex, coq_list, coq_bool
 from vf.gen import pick_weighted
 
 ID = "C32"
-THEOREMS = ["C32_exact", "C32_names_kept", "C32_components", "C32_prefix_refuted"]
+THEOREMS = ["C32_exact", "C32_names_kept", "C32_components", "C32_prefix_refuted", "C32_flags", "C32_hard_worktree",
+            "C32_target_exact_partial", "C32_merge_switch_refuted"]
 MODEL_FILES = ["SparseCheckout.v"]
 MODELLED = ("plumbing/format/index/index.go: Index.SkipUnless; worktree.go: treeContainsDirs, Reset (HardReset/MergeReset) and "
             "Checkout (forced/non-forced) through resetIndex, resetWorktree, resetWorktreeToTree steps 1-3, containsUnstagedChanges, "
